@@ -1095,13 +1095,40 @@ func c15RunHub(t *testing.T, u *c15Universe, c *c15Case, st *c15RunStats) (trace
 			}
 			delete(live, o.Label)
 			emit(fmt.Sprintf("XRemove %d", l.sid), "WNone")
-		case "lookup", "resume":
-			if o.Src == nil {
-				continue
-			}
-			s, srcTerm, ok := c15Resolve(o.Src, minted)
-			if !ok {
-				continue
+		case "lookup", "resume", "foreign":
+			var s, srcTerm string
+			if o.K == "foreign" {
+				// a valid id for the Sid of one of this hub's sessions that this hub did not hand out
+				// (minted with the same keys, as another server of a cluster would)
+				l, ok := live[o.Label]
+				if !ok {
+					continue
+				}
+				fd := &SessionIdData{Sid: l.sid, Created: timestamppb.New(time.Unix(int64(1000+len(trace)), 0)), BackendId: "foreign"}
+				var err error
+				if o.Role == c15Private {
+					s, err = hub.cookie.EncodePrivate(fd)
+				} else {
+					s, err = hub.cookie.EncodePublic(fd)
+				}
+				if err != nil {
+					t.Fatal(err)
+				}
+				srcTerm = fmt.Sprintf("(SLit %s)", coqStr(s))
+				o.K = "lookup"
+				if o.Ks == 1 && o.Role == c15Private {
+					o.K = "resume"
+				}
+				st.minted++
+			} else {
+				if o.Src == nil {
+					continue
+				}
+				var ok bool
+				s, srcTerm, ok = c15Resolve(o.Src, minted)
+				if !ok {
+					continue
+				}
 			}
 			var a c15Answers
 			role := o.Role
@@ -1184,6 +1211,9 @@ func c15GenHubCase(r *vrng, id int) *c15Case {
 			liveLabels = append(liveLabels[:j], liveLabels[j+1:]...)
 		case x < 30:
 			c.Ops = append(c.Ops, c15Op{K: "dump"})
+		case x < 38:
+			// Ks = 1 asks for the hello-resume path (private ids only)
+			c.Ops = append(c.Ops, c15Op{K: "foreign", Label: pick(r, liveLabels), Role: r.intn(2), Ks: r.intn(2)})
 		default:
 			base := pick(r, allLabels)
 			which := r.intn(2)
